@@ -160,6 +160,7 @@ type memConn struct {
 	slowRead       bool           // the client does not read: a server Write delivers half and blocks until resumed
 	writeBlocked   bool           // a server Write is in progress (blocked on the client)
 	resumes        int            // blocked writes the client has allowed to complete
+	closeHook      func()         // run by the close callback of this connection (after it has been logged)
 	errsExpected   int            // errors handed to the server that it reports through onErrorFunc
 	errsSeen       int            // OnErrorFunc calls attributed to this connection
 }
@@ -227,7 +228,7 @@ func (c *memConn) Write(p []byte) (int, error) {
 		c.errsExpected++
 		return 0, memErr{c.id, "write on closed connection"}
 	}
-	if c.failWrites {
+	if c.failWrites || c.clientClosed {
 		w.logLocked(lcEvent{code: evWrite, c: c.id, a: 0})
 		c.errsExpected++
 		return 0, memErr{c.id, "connection reset by peer"}
